@@ -508,7 +508,7 @@ func GenText(t *rapid.T, globals []Global, body []*Node, allowCR bool, maxLen in
 
 // ---------------------------------------------------------------- layouts
 
-var sepKinds = []string{"space", "newline", "tabs", "linecomment", "linecomment_nolead", "blockcomment", "blockcomment_blanks", "nothing", "crlf"}
+var sepKinds = []string{"emptylinecomment", "space", "newline", "tabs", "linecomment", "linecomment_nolead", "blockcomment", "blockcomment_blanks", "nothing", "crlf"}
 
 func sepOf(kind string, body string) string {
 	switch kind {
@@ -520,6 +520,8 @@ func sepOf(kind string, body string) string {
 		return "\t\t"
 	case "crlf":
 		return "\r\n"
+	case "emptylinecomment":
+		return "--\n"
 	case "linecomment":
 		return " -- " + body + "\n"
 	case "linecomment_nolead":
